@@ -22,6 +22,24 @@ THEOREMS = [
     'IblVerif.C16.saturation_returns',
     'IblVerif.C16.mute_function_of_flags',
     'IblVerif.C16.saturation_rejects',
+    'IblVerif.C16.flags_window_interior',
+    'IblVerif.C16.flags_window_last',
+    'IblVerif.C16.window_seam_counterexample',
+    'IblVerif.C16.batched_eq_whole',
+    'IblVerif.C16.destripe_batched_eq_whole',
+    'IblVerif.C16.destripe_constants_overlap',
+    'IblVerif.C16.batched_seam_counterexample',
+    'IblVerif.C16.mute_window_eq_whole',
+    'IblVerif.C16.mute_kept_rows_eq_whole',
+    'IblVerif.C16.mute_antitone_flags',
+    'IblVerif.C16.mute_le_taper_near_flag',
+    'IblVerif.C16.mute_isolated_profile',
+    'IblVerif.C16.mute_isolated_symmetric',
+    'IblVerif.C16.mute_isolated_monotone',
+    'IblVerif.C16.flags_fullscale_counts',
+    'IblVerif.C16.fullscale_misaligned_counterexample',
+    'IblVerif.C16.fullScaleInt_table',
+    'IblVerif.C16.fullscale_no_tie',
 ]
 RULE = ('calls saturation(data, max_voltage, v_per_sec, fs, proportion, mute_window_samples) built from a recipe (mode, index): '
         'channel counts 1..400 (edge-biased: 1..7, multiples of 5 +-1, 383..385, 399, 400), float32/float64 data, max_voltage as Python '
@@ -34,7 +52,20 @@ RULE = ('calls saturation(data, max_voltage, v_per_sec, fs, proportion, mute_win
         'mute_window_samples 0 / negative, ns = 0, 1, 2, nc = 0, inf/nan samples.  The FORM of every call is drawn from its own stream, independently of the values: C / Fortran / transposed / strided data, read-only, positional or keyword spelling in the documented order, scalar arguments as Python or NumPy types.  Even widths are outside the property (known finding F9) and are only run in a small '
         'code-vs-model batch that ties even_width_counterexample to the code.  Every second case is called twice and every sixth three times with the SAME argument objects (each call compared with the model of the original values; an argument that comes back modified is only tagged and followed up with three calls).  Flags are compared exactly, the mute gain to 1e-12 with exact '
         'zeros and ones where SciPy convolves directly.  A case is non-trivial when it has both flagged and unflagged samples or a planted '
-        'boundary; distinct by recipe.')
+        'boundary; distinct by recipe.  BATCH-WISE USE (mode batch): short float32 / float64 / int16 recordings with slew-only and amplitude-only events planted on and '
+        'next to the last sample of every batch, and a batch list - the schedule of decompress_destripe_cbin at scaled-down batch length / taper (taper 0 = no overlap), '
+        'the batches of 2-3 workers in any order, random chains, abutting batches, random batches in random order; the real function is called on every data[:, a:b] '
+        'and its flags written over np.zeros(ns) in that order: compared exactly with Saturation.batched for EVERY list, with one call on the whole recording when the '
+        'list satisfies the chain hypothesis (the driver decides it with the Lean definition), and the gain of every batch with the whole-recording gain on the rows '
+        'that mute_window_eq_whole covers (1e-12); the same batch-wise = whole check at the source\'s own 65536 / 1024 on the > 65536-sample recordings.  '
+        'PRODUCTION PATH (mode pipeline): the real decompress_destripe_cbin (pyfftw stand-in, tasks run sequentially in worker order) on a 3B recording of 384 identical '
+        'channels with 300-count steps on the last sample of every batch: the saved flag vector against Saturation.batched over the model\'s worker batches and against one '
+        'call on the whole recording - INFORMATIONAL only (tags / notes; what a caller stores is outside C16).  FULL SCALE (mode fullscale): a real '
+        'spikeglx.Reader on the repository\'s fixture metas (3A, 3B ap / lf, NP2.1, NP2.4, NPultra, nidq) with imMaxInt kept / removed / replaced (512 ... 32768, 511, 700, 8191), '
+        'uniform or per-channel AP gains, raw int16 counts one count below / above 0.98 x full scale on k0-1 / k0 / k0+1 / all channels: '
+        'saturation(sr[:, :ncv].T, sr.range_volts[:ncv], v_per_sec=inf, fs=sr.fs) against the exact integer rule 50|raw| > 49 maxInt of Saturation.opsCounts with '
+        'maxInt = Saturation.fullScaleInt; _get_max_int_from_meta on meta dictionaries of every probe family x imMaxInt absent / present x explicit version argument '
+        'against fullScaleInt.')
 ASSUMPTIONS = [
     'Python scalars adopt the precision of the array they meet (NumPy >= 2); NumPy scalars are strong: the model instance follows the same promotion',
     'repeated calls with the SAME argument objects must each follow the rule on the values originally passed (the model is a pure function); whether an argument is modified in place is only recorded as a tag and used to choose follow-up calls',
@@ -44,23 +75,63 @@ ASSUMPTIONS = [
     'even mute_window_samples are excluded from the property (known finding even_mute_window); the theorems carry the hypothesis win[(M-1)/2] >= 1',
     'slew test at exact equality: the code uses >=, the statement says exceed; model follows the code, the oracle accepts either there',
     'proportion_test_exact is stated in the standard model of rounding (monotone, relative error <= 2^-53); the IEEE instance itself is executed, not proved',
+    'batch-wise use: a batch is data[:, a:b] with 0 <= a < b <= ns (what the code produces); every batch is an ordinary call of saturation() and is judged as such. '
+    'batched_eq_whole needs the chain hypothesis (first batch at 0, every batch starts at or before the last sample of the part already final, one batch ends at ns, '
+    'written in that order): true for one worker of decompress_destripe_cbin whenever 1 <= 2*taper < nbatch (destripe_batched_eq_whole, constants re-extracted); lists '
+    'that violate it are compared code-vs-model only (Saturation.batched reproduces the lost seam flag, theorem batched_seam_counterexample)',
+    'the property is about the values saturation() returns for the arguments it is given: in which order a caller stores the flags of several calls is not part of C16. '
+    'The runs of the real decompress_destripe_cbin (mode pipeline) are therefore INFORMATIONAL: tags and notes in the evidence, never a disagreement',
+    'the property takes max_voltage as given; which vector a caller passes is not part of C16.  The full-scale cases read "full-scale voltage" as the anchored '
+    'Reader.range_volts = sample2volts x maxInt with maxInt = imMaxInt of the meta, else 512 (imec probes that are not 2.0) / 32768 (non-imec streams), and call '
+    'saturation with that vector lined up with the data: per-channel AP gains are generated only on probes the Reader returns in file channel order (3A / 3B fixtures), '
+    'because on the others range_volts (file order) and the columns of sr[...] (sorted order) are not lined up - a matter of the caller, see observations()',
+    'a 2.0 probe without imMaxInt and an imec stream of unknown probe type raise in the code and in the model (the exception class is not compared); raw counts exactly AT '
+    '0.98 x full scale (possible only when 49*maxInt is a multiple of 50, e.g. 700) are not generated: the float32 chain raw*s2v > (s2v*maxInt)*0.98 decides the exact '
+    'integer rule everywhere else (relative gap >= 1/(49*32768) >> 3 float32 roundings)',
 ]
 TRUSTED = [
     'NumPy casting rules (NEP 50 weak Python scalars; float32 vs float64 comparison promotes exactly; np.mean of booleans accumulates in float64)',
     'scipy.signal.convolve(mode="same") starts at index (M-1)//2 of the full convolution (compared on every case, incl. ns < M)',
     'scipy.signal.windows.cosine(M)[k] = sin(pi/M (k+1/2)) (compared with the Lean Float twin to 1e-15 each run)',
     'Lean Float/Float32 arithmetic is IEEE-754 binary64/binary32 with round-to-nearest-even (flags are compared bit-exactly on planted one-ulp boundaries)',
+    'translator tie (harness/pyfn2lean.py, harness/tiespecs/c16.py): saturation is read as the SEQUENCE OF ITS ARRAY-LEVEL CALLS matched on their unparsed text (regular '
+    'expressions with integer holes: operators, operand order, axes, factor, clip constants, convolution mode, where each scalar argument goes); the data flow between the '
+    'calls and the `np.r_[..., 0]` padding (a subscript, not a call) are outside it; my_function is read as the sequence of its saturation(...) calls with [first_s, last_s)',
+    'NumPy basic slicing data[:, a:b] = columns a..b-1 (Saturation.colSlice); buf[a:b] = v overwrites exactly those entries (Saturation.writeAt)',
+    'spikeglx.Reader.read multiplies int16 counts by sample2volts in float32 (C01); the version strings of _get_neuropixel_version_from_meta (C09); joblib replaced by a '
+    'sequential stand-in and pyfftw by the NumPy stand-in of harness/stubs in the production-path runs',
 ]
 LEVEL_TEXT = ('Lean 4 theorems: for every [nc, ns] array, every scalar/per-channel range and every instance of the element-wise arithmetic the '
               'returned flags equal the counting rule (over-98% count or slew count into the next sample, each as mean > proportion; exact-integer '
               'form; float64 test = rational rule in the standard rounding model); over the reals for every non-negative window: gain in [0,1], '
               '0 on flagged samples when the centre weight is >= 1 (proved for the cosine window of every odd width), 1 outside the window '
-              'footprint, function of the flags only; even widths: proved counterexample.  The model is tied to the code by an exact '
-              'differential run on one-ulp boundary inputs.')
+              'footprint, function of the flags only; even widths: proved counterexample.  Batch-wise use: a flag depends on its own and the next sample only '
+              '(flags of data[:, a:b] = flags of the recording except on the batch\'s last sample, which is judged by the 98 % criterion alone); batches written in order '
+              'with one sample of overlap give exactly the whole-recording flags (batched_eq_whole), the schedule of decompress_destripe_cbin satisfies the hypothesis for '
+              'every ns whenever 1 <= 2 taper < nbatch (re-extracted constants: decide), counterexamples without overlap / out of order; the gain of a batch equals the '
+              'whole-recording gain on the kept rows for every window not longer than the taper.  Shape of the gain: more flags never raise it, near any flag it is at most '
+              'the taper profile, around an isolated flag it IS the profile - symmetric and non-decreasing away from the flag for the odd cosine window.  Full scale: with '
+              'max_voltage = sample2volts x maxInt and data = raw x sample2volts (any positive per-channel factors, exact rationals) the flags are the rule 50|raw| > 49 maxInt '
+              'on the raw counts; decision table of _get_max_int_from_meta; counterexample when data and range are in different channel orders.  '
+              'Translator tie (re-generated from the source on every run): the call sequence of saturation with its integer parameters = Saturation.steps; the batches on which '
+              'my_function calls saturation = Saturation.workerWindows for every worker, every ns / nbatch / taper (induction over the loop); range_volts = sample2volts * maxint; '
+              'NP2 branch of _get_max_int_from_meta.  The model is tied to the code by an exact differential run on one-ulp boundary inputs, batch lists, real Readers and the real pipeline.')
 LEVEL_NOTE = ('trusted: Lean kernel + Mathlib, the correspondence harness, NumPy/SciPy semantics listed under trusted_base; the IEEE instances of the '
-              'element-wise operations are executed (bit-exact comparison with NumPy), not reasoned about; mute gain float64 vs real: numeric (1e-12)')
-TECHNIQUE = ('Lean 4 proof: list/ofFn extensionality for the array program, Mathlib list sums and trigonometry for the mute gain, '
-             'standard-model rounding lemma (partial: IEEE instance executed only); exact differential run against the real function')
+              'element-wise operations are executed (bit-exact comparison with NumPy), not reasoned about; mute gain float64 vs real: numeric (1e-12). '
+              'The tie on saturation itself is a tie of its CALL SEQUENCE (text patterns with integer holes), not of array semantics: NumPy broadcasting, axis meaning, the '
+              'trailing-0 padding and the data flow between the calls stay with the correspondence run. fullScaleInt defaults 512 / 32768 and the two int(md.get(key, default)) '
+              'branches are outside the translator (two-argument dict.get): compared with the real function on every run only. flags_fullscale_counts is exact-rational; that the '
+              'float32 chain of a real Reader decides the same rule is checked numerically (exact agreement on planted +-1 count boundaries), not proved. Several workers: the '
+              'chain hypothesis is proved for one worker only; for P >= 2 it is evaluated by the driver on the generated cases, and concurrent write order is not modelled '
+              '(see below). DEFECTS OF CALLERS OBSERVED WHILE MODELLING, OUTSIDE THE PROPERTY (demonstrations: observations() in harness/props/c16.py, not run by ./check): '
+              '(1) Reader.range_volts is in file channel order while the columns of sr[...] are geometry-sorted, so with per-channel AP gains on a probe whose sorted order '
+              'differs (NPultra fixture) saturation(sr[:, :ncv].T, sr.range_volts[:ncv]) judges a channel against another channel\'s full scale '
+              '(fullscale_misaligned_counterexample); (2) decompress_destripe_cbin with nprocesses >= 2 loses a slew-only flag on the last sample of a worker\'s last batch '
+              'when that batch is written after the next worker\'s first batch, the normal order of a parallel run (batched_seam_counterexample)')
+TECHNIQUE = ('Lean 4 proof: list/ofFn extensionality for the array program, induction over batch lists and over the worker loop (fuel), Mathlib list sums and trigonometry '
+             'for the mute gain, ordered-field arithmetic over Q for the full scale, standard-model rounding lemma (partial: IEEE instance executed only); source-to-Lean '
+             'translator tie (event sequences of saturation and of my_function, range_volts) re-proved on every run; exact differential run against the real function, '
+             'real Readers and the real decompress_destripe_cbin')
 
 ODD_WIDTHS = [1, 3, 5, 7, 9, 11, 13, 15, 21, 31, 33]
 NC_EDGE = [1, 2, 3, 4, 5, 6, 7, 9, 10, 11, 14, 15, 16, 19, 20, 21, 25, 49, 50, 51, 99, 100, 101, 199, 200, 201, 383, 384, 385, 399, 400]
@@ -876,7 +947,13 @@ def correspondence(ctx):
         ctx.compare('mute', {'mode': 'long', 'i': i, 'ns': ns, 'mute_window_samples': M}, a, b, nontrivial=bool(pat.any() and not pat.all()),
                     tags=('mode=long_flags', 'pattern=' + pkind))
     ctx.note(f'defaults read from the real signature: {dflt}; flagged samples over all cases: {nflag}')
-    _scale_cases(ctx)
+    import time
+    times = []
+    for part in (_scale_cases, _batch_cases, _maxint_table, _fullscale_cases, _pipeline_cases):
+        t0 = time.time()
+        part(ctx)
+        times.append(f'{part.__name__} {time.time() - t0:.1f}s')
+    ctx.note('wall time of the added parts: ' + ', '.join(times))
 
 
 SEAMS = (1024, 4096, 8192, 30000, 32768, 60000, 65536)
@@ -927,6 +1004,593 @@ def _scale_cases(ctx):
                     'ok' if r is None else 'C16 fails at scale: ' + str(r)[:300], 'ok', tags=('scale', 'scale-ns>65536'))
         if r is not None:
             ctx.scale_failures = getattr(ctx, 'scale_failures', []) + [(i, r)]
+            continue
+        # destripe_batched_eq_whole at the source's own batch length and taper: the batch-wise vector of the real function over the
+        # model's schedule (tied to my_function by Tie.C16.saturation_calls_eq) is the flag vector of one call on the recording
+        N, T = int(ctx.consts.get('DESTRIPE_NBATCH', 65536)), int(ctx.consts.get('DESTRIPE_TAPER', 1024))
+        spec = f'sched:{N}:{T}' if i % 2 == 0 else f'workers:{N}:{T}:2:0.1'
+        ans = ctx.lean([f'windows {ns} {spec}'])[0]
+        parts = dict(x.split('=', 1) for x in ans.split()[1:]) if ans.startswith('ok ') else {}
+        wins = [tuple(int(y) for y in x.split(':')) for x in parts.get('wins', '').split(',') if ':' in x]
+        case = dict(case, mute_window_samples=None)
+        real, whole = _real_batched(case, wins), _call(case)
+        if parts.get('chain') == '1' and real[0] == 'ok' and whole[0] == 'ok':
+            d = np.where(real[1] != whole[1])[0]
+            ctx.compare('scale_batch', {'mode': 'scale_batch', 'i': i, 'ns': ns, 'batches': spec},
+                        'ok' if d.size == 0 else f'batch-wise flags differ from the whole-recording flags at samples {d[:8].tolist()}', 'ok',
+                        nontrivial=bool(whole[1].any()), tags=('scale', 'scale_batch', 'batches=' + spec.split(':')[0]))
+        else:
+            ctx.compare('scale_batch', {'mode': 'scale_batch', 'i': i, 'ns': ns, 'batches': spec}, f'{real[0]} {whole[0]} chain={parts.get("chain")}', 'ok ok chain=1',
+                        tags=('scale', 'scale_batch'))
+
+
+# ---------------------------------------------------------------------------------------------
+# batch-wise use: saturation(data[:, a:b]) on overlapping batches, written over a recording-long vector
+# (what decompress_destripe_cbin.my_function does with the flags; Saturation.batched / Chain / schedule / workerWindows)
+# ---------------------------------------------------------------------------------------------
+def _line_batch(case, dflt, wins):
+    data = case['data']
+    nc, ns = data.shape
+    kind = data.dtype.kind
+    dd = ('i%d' % (8 * data.dtype.itemsize)) if kind == 'i' else '32' if data.dtype == np.float32 else '64'
+    mva, md = _mv_array(case['max_voltage'])
+    fs = case['fs'] if case.get('fs') is not None else dflt['fs']
+    vv = case['v_per_sec'] if case.get('v_per_sec') is not None else dflt['v_per_sec']
+    v = 'd' if case.get('v_per_sec') is None else _fbits(case['v_per_sec'])
+    p = 'd' if case.get('proportion') is None else _fbits(case['proportion'])
+    if kind == 'i':
+        rows = ';'.join(','.join(map(str, r.tolist())) for r in data)
+    else:
+        rows = ';'.join(_blist(r) for r in data)
+    return f'batch {dd} {md} {_slew_form(data.dtype, fs, vv)} {ns} {nc} {_fbits(fs)} {v} {p} {wins} {_blist(mva)} {rows}'
+
+
+def _chain_list(rng, ns):
+    """a random batch list that satisfies Saturation.Chain: starts at 0, each batch starts at or before the last sample of the
+    previous one, the last ends at ns"""
+    wins, a, b = [], 0, int(rng.integers(1, min(ns, 12) + 1))
+    while True:
+        wins.append((a, b))
+        if b == ns:
+            return wins
+        a = int(rng.integers(max(a, b - 4), b))             # a <= b - 1: at least one sample of overlap
+        b = int(min(ns, max(b + 1, a + int(rng.integers(2, 14)))))
+
+
+def _case_batch(ctx, i):
+    """a short recording with amplitude-only and slew-only events planted on / next to the batch edges, and a batch list:
+    the code's own schedule (scaled-down NBATCH / taper, taper 0 = no overlap), several workers in any order, a random chain,
+    abutting batches, random batches in random order"""
+    rng = ctx.subrng(12, i)
+    dtype = [np.float32, np.float64, np.int16][int(rng.integers(0, 3))]
+    integer = np.dtype(dtype).kind == 'i'
+    nc = int(rng.choice([1, 2, 3, 5, 8]))
+    p = [None, 0.5, 1 / 3][int(rng.integers(0, 3))]
+    k0 = _k0(p, nc)
+    kind = ['sched', 'sched', 'sched0', 'workers', 'workers', 'chain', 'abut', 'random'][i % 8]
+    ns = int(rng.integers(6, 70))
+    N = T = P = None
+    if kind in ('sched', 'sched0'):
+        N = int(rng.integers(3, 17))
+        T = 0 if kind == 'sched0' else int(rng.integers(1, (N - 1) // 2 + 1))
+        token = f'sched:{N}:{T}'
+        ends = [k * (N - 2 * T) + N - 1 for k in range(ns // max(N - 2 * T, 1) + 1)]
+    elif kind == 'workers':
+        P = int(rng.integers(2, 4))
+        N = int(rng.integers(3, 11))
+        T = int(rng.integers(0, (N - 1) // 2 + 1))
+        ns = int(rng.integers(P * N, P * N + 40))           # the size condition of C06 (every worker has a batch to process)
+        order = [int(x) for x in rng.permutation(P)] if rng.random() < 0.7 else list(range(P))
+        token = f'workers:{N}:{T}:{P}:' + '.'.join(map(str, order))
+        ends = [k * (N - 2 * T) + N - 1 for k in range(ns // max(N - 2 * T, 1) + 1)]
+    else:
+        if kind == 'chain':
+            wins = _chain_list(rng, ns)
+        elif kind == 'abut':
+            cuts = sorted(set([0, ns] + [int(x) for x in rng.integers(1, ns, size=int(rng.integers(1, 5)))]))
+            wins = list(zip(cuts[:-1], cuts[1:]))
+        else:
+            wins = []
+            for _ in range(int(rng.integers(1, 7))):
+                a = int(rng.integers(0, ns))
+                wins.append((a, int(rng.integers(a + 1, ns + 1))))
+        token = ','.join(f'{a}:{b}' for a, b in wins)
+        ends = [b - 1 for a, b in wins]
+    if integer:
+        R, fs, v, step, amp = 100, 1, 5.0, 10, 99
+    else:
+        R, fs, v, step, amp = 1.0, 30000.0, 1e-8, dtype(0.4), dtype(0.995)
+    data = np.zeros((nc, ns), dtype=dtype)
+    spots = {}
+    for e in ends:                                          # on the last sample of a batch, and next to it
+        for d in (0, 0, -1, 1):
+            if rng.random() < 0.45 and 0 <= e + d < ns - 1:
+                spots.setdefault(e + d, 'slew' if rng.random() < 0.7 else 'amp')
+    for x in rng.integers(0, max(ns - 1, 1), size=int(rng.integers(0, 4))):
+        spots.setdefault(int(x), 'slew' if rng.random() < 0.5 else 'amp')
+    for t in sorted(spots):
+        k = int(np.clip(k0 + int(rng.choice([0, 1, 1, nc])), 0, nc))
+        ch = rng.permutation(nc)[:k]
+        if spots[t] == 'slew':                              # a step between t and t+1, the level stays far below 98 % of range
+            up = data[ch, t] == 0
+            data[ch[up], t + 1:] = step
+            data[ch[~up], t + 1:] = 0
+        else:                                               # one sample beyond 98 % of range (the steps into and out of it fire too)
+            data[ch, t] = amp
+    case = {'data': data, 'max_voltage': R, 'v_per_sec': v, 'fs': fs, 'proportion': p, 'mute_window_samples': None}
+    desc = {'mode': 'batch', 'i': i, 'nc': nc, 'ns': ns, 'dtype': str(np.dtype(dtype)), 'batches': token, 'proportion': p}
+    return case, token, desc, ['mode=batch', 'batches=' + kind]
+
+
+def _real_batched(case, wins):
+    """the loop of decompress_destripe_cbin on the real function: flags of every batch written over np.zeros(ns, bool), in order;
+    also the mute gain of every batch"""
+    data = case['data']
+    ns = data.shape[1]
+    kw = {k: case[k] for k in ARG_ORDER if case.get(k) is not None}
+    buf, mutes = np.zeros(ns, dtype=bool), []
+    for a, b in wins:
+        with warnings.catch_warnings():
+            warnings.simplefilter('ignore')
+            try:
+                f, m = _sat()(data[:, a:b], case['max_voltage'], **kw)
+            except ValueError as e:
+                return (_classify(e),)
+            except Exception as e:
+                return (f'err {type(e).__name__} {str(e)[:60]}',)
+        f, m = np.asarray(f), np.asarray(m)
+        if f.shape != (b - a,) or m.shape != (b - a,) or f.dtype.kind not in 'bui':
+            return (f'err shape flags{f.shape} mute{m.shape} for the batch [{a}, {b})',)
+        buf[a:b] = f.astype(bool)
+        mutes.append(m.astype(np.float64))
+    return ('ok', buf, mutes)
+
+
+def _parse_batch_answer(ans):
+    if not ans.startswith('ok '):
+        return None
+    parts = dict(x.split('=', 1) for x in ans.split()[1:])
+    fl = np.array([c == '1' for c in parts['flags']], dtype=bool) if parts['flags'] != '-' else np.zeros(0, bool)
+    wins = [] if parts['wins'] == '-' else [tuple(int(y) for y in x.split(':')) for x in parts['wins'].split(',')]
+    return fl, parts['chain'] == '1', wins
+
+
+def _fl(a):
+    return ''.join('1' if b else '0' for b in a)
+
+
+def _batch_cases(ctx):
+    dflt = _defaults()
+    built = [_case_batch(ctx, i) for i in range(ctx.n(320, 3200))]
+    answers = ctx.lean([_line_batch(case, dflt, token) for case, token, _, _ in built])
+    Mi = int(dflt['mute_window_samples'])
+    c = (Mi - 1) // 2
+    lost = 0
+    for (case, token, desc, tags), ans in zip(built, answers):
+        parsed = _parse_batch_answer(ans)
+        if parsed is None:
+            ctx.compare('batch', desc, 'ok', ans, tags=tuple(tags))
+            continue
+        mflags, chain, wins = parsed
+        ns = case['data'].shape[1]
+        if any(a >= b for a, b in wins):           # an empty batch: the pipeline never calls saturation on one (outside the batch model's domain)
+            ctx.case(desc, nontrivial=False, tags=('mode=batch', 'empty_batch(skipped)'))
+            continue
+        real = _real_batched(case, wins)
+        tags = list(tags) + ['chain' if chain else 'no_chain', 'batches=%d' % len(wins) if len(wins) < 4 else 'batches>=4']
+        if real[0] != 'ok':
+            ctx.compare('batch', desc, real[0], 'ok flags=' + _fl(mflags), tags=tuple(tags))
+            continue
+        # (1) the batch-wise vector of the real function = Saturation.batched, whatever the batch list
+        same = ctx.compare('batch', desc, 'ok flags=' + _fl(real[1]), 'ok flags=' + _fl(mflags), nontrivial=bool(real[1].any()), tags=tuple(tags))
+        whole = _call(case)
+        if whole[0] != 'ok':
+            ctx.compare('batch_whole', desc, whole[0], 'ok', tags=('batch_whole',))
+            continue
+        differs = not np.array_equal(real[1], whole[1])
+        if chain:
+            # (2) batched_eq_whole: under the chain hypothesis the batch-wise vector IS the flag vector of one call on the recording
+            ctx.compare('batch_whole', dict(desc, op='batch_whole'), 'ok flags=' + _fl(real[1]), 'ok flags=' + _fl(whole[1]),
+                        nontrivial=bool(whole[1].any()), tags=('batch_whole', 'chain'))
+        elif differs:
+            lost += 1
+            ctx.case(dict(desc, op='seam_lost'), nontrivial=True, tags=('no_chain:batch-wise differs from the whole recording (as the model says)',))
+        if not same:
+            continue
+        # (3) mute_window_eq_whole: away from the batch edges the gain of a batch is the gain of the whole recording
+        bad = None
+        nrows = 0
+        for (a, b), m in zip(wins, real[2]):
+            for i in range(b - a):
+                if (a == 0 or Mi - 1 <= i + c) and (b == ns or a + i + c + 1 < b):
+                    nrows += 1
+                    if abs(m[i] - whole[2][a + i]) > 1e-12 and bad is None:
+                        bad = f'batch [{a}, {b}) local sample {i}: gain {m[i]!r}, whole recording {whole[2][a + i]!r} at sample {a + i}'
+        ctx.compare('batch_mute', dict(desc, op='batch_mute'), 'ok' if bad is None else bad, 'ok', nontrivial=nrows > 0, tags=('batch_mute',))
+    ctx.note(f'batch-wise use: {len(built)} batch lists; in {lost} of the lists that violate the chain hypothesis the batch-wise flags differ from the '
+             f'whole-recording flags (seam sample judged without its next sample), as Saturation.batched computes')
+
+
+# ---------------------------------------------------------------------------------------------
+# full-scale voltage: Reader.range_volts / _get_max_int_from_meta, and "98 % of full scale" in raw ADC counts
+# ---------------------------------------------------------------------------------------------
+# (fixture meta, stream suffix, typeThis == imec, version by SpikeGLX convention, channel order of the sorted Reader is the file order)
+FIXTURES = [('sample3B_g0_t0.imec1.ap.meta', 'imec0.ap', True, '3B2', True),
+            ('sample3A_g0_t0.imec.ap.meta', 'imec.ap', True, '3A', True),
+            ('sampleNP2.1_g0_t0.imec.ap.meta', 'imec0.ap', True, 'NP2.1', False),
+            ('sampleNP2.4_4shanks_g0_t0.imec.ap.meta', 'imec0.ap', True, 'NP2.4', False),
+            ('sampleNPultra_g0_t0.imec0.ap.meta', 'imec0.ap', True, 'NPultra', False),
+            ('sample3B_g0_t0.nidq.meta', 'nidq', False, None, True),
+            ('sample3B_g0_t0.imec1.lf.meta', 'imec0.lf', True, '3B2', True)]
+NP1_GAINS = (50, 125, 250, 500, 1000, 1500, 2000, 3000)
+MAXINTS = (512, 8192, 2048, 1024, 32768, 511, 700, 8191)
+
+
+def _fixture_dir():
+    import os
+    from pathlib import Path
+    return Path(os.environ.get('IBL_REPO', '/repo')) / 'src' / 'tests' / 'fixtures'
+
+
+_FIX = {}
+
+
+def _fixture_lines(name):
+    if name not in _FIX:
+        _FIX[name] = (_fixture_dir() / name).read_text().splitlines()
+    return _FIX[name]
+
+
+def _conventional_full_scale(imec, version, mi):
+    """full scale in ADC counts by the SpikeGLX convention the property refers to (written from the documentation, not from the
+    code): the meta value imMaxInt when present; else 512 for 1.0-type imec probes, 32768 for NI streams; a 2.0 probe always
+    carries imMaxInt"""
+    if mi is not None:
+        return int(mi)
+    if not imec:
+        return 32768
+    if version in ('NP2.1', 'NP2.4') or version is None:
+        return None
+    return 512
+
+
+def _write_recording(tmp, case):
+    """meta text of the fixture with the recording length, a plain 30 kHz rate, imMaxInt kept / removed / replaced, optionally
+    per-channel AP gains; raw int16 counts in the voltage columns, zeros in the sync column"""
+    import re
+    from pathlib import Path
+    name, suffix = FIXTURES[case['fixture']][:2]
+    raw = case['raw']
+    ns = raw.shape[0]
+    lines = _fixture_lines(name)
+    nsaved = int(float([l for l in lines if l.startswith('nSavedChans=')][0].split('=')[1]))
+    out, seen = [], False
+    for l in lines:
+        k = l.split('=', 1)[0]
+        if k == 'fileSizeBytes':
+            l = f'fileSizeBytes={ns * nsaved * 2}'
+        elif k == 'fileTimeSecs':
+            l = f'fileTimeSecs={ns / 30000:.12f}'
+        elif k in ('imSampRate', 'niSampRate'):
+            l = f'{k}=30000'
+        elif k == 'imMaxInt':
+            seen = True
+            if case['mi_edit'] == 'delete':
+                continue
+            if case['mi_edit'] != 'keep':
+                l = f'imMaxInt={case["mi_edit"]}'
+        elif k == '~imroTbl' and case.get('gains') is not None:
+            hdr = re.match(r'~imroTbl=(\([^)]*\))', l).group(1)
+            six = re.search(r'\)\(\d+ \d+ \d+ \d+ \d+ \d+\)', l) is not None
+            l = '~imroTbl=' + hdr + ''.join(f'({i} 0 0 {g} 250' + (' 1)' if six else ')') for i, g in enumerate(case['gains']))
+        out.append(l)
+    if not seen and case['mi_edit'] not in ('keep', 'delete'):
+        out.append(f'imMaxInt={case["mi_edit"]}')
+    D = np.zeros((ns, nsaved), np.int16)
+    D[:, :raw.shape[1]] = raw
+    binf = Path(tmp) / f'rec.{suffix}.bin'
+    D.tofile(binf)
+    (Path(tmp) / f'rec.{suffix}.meta').write_text('\n'.join(out) + '\n')
+    return binf
+
+
+def _fixture_maxint(name):
+    for l in _fixture_lines(name):
+        if l.startswith('imMaxInt='):
+            return int(float(l.split('=')[1]))
+    return None
+
+
+def _case_fullscale(ctx, i):
+    """a short recording of raw counts next to 98 % of the full scale, on just below / at / just above the proportion of the
+    channels, under a meta file whose imMaxInt is kept, removed or replaced; uniform or (file-ordered probes) per-channel gains"""
+    rng = ctx.subrng(13, i)
+    fx = i % len(FIXTURES)
+    name, suffix, imec, version, file_order = FIXTURES[fx]
+    edit = ['keep', 'keep', 'delete', 'set'][int(rng.integers(0, 4))]
+    own = _fixture_maxint(name)
+    if edit == 'set':
+        edit = int(rng.choice(MAXINTS))
+    mi = own if edit == 'keep' else None if edit == 'delete' else int(edit)
+    M = _conventional_full_scale(imec, version, mi)
+    ncv = 1 if suffix == 'nidq' else 384
+    ns = int(rng.integers(2, 9))
+    p = [None, None, 0.5, 0.1][int(rng.integers(0, 4))]
+    k0 = _k0(p, ncv)
+    Mp = M if M is not None else 8192
+    raw = rng.integers(-Mp // 3, Mp // 3 + 1, size=(ns, ncv)).astype(np.int16)
+    thr = Fraction(49 * Mp, 50)
+    above = min(int(math.floor(thr)) + 1, 32767)
+    below = int(math.ceil(thr)) - 1                          # strictly below, never an exact tie (0.98 M an integer only for M = 700 here)
+    tags = set()
+    for t in range(ns):
+        if rng.random() < 0.7:
+            dk = int(rng.choice([-1, 0, 1, 1, 2, 10 ** 6]))
+            n_above = int(np.clip(k0 + dk, 0, ncv))
+            n_below = int(min(rng.choice([0, 1, 3]), ncv - n_above))
+            perm = rng.permutation(ncv)
+            sgn = rng.choice([-1, 1], size=ncv)
+            hi = above if rng.random() < 0.7 else min(Mp - 1, 32767) if rng.random() < 0.5 else min(Mp, 32767)
+            raw[t, perm[:n_above]] = (sgn * max(hi, above))[perm[:n_above]]
+            raw[t, perm[n_above:n_above + n_below]] = (sgn * below)[perm[n_above:n_above + n_below]]
+            tags.add('k=all' if n_above == ncv else 'k=k0%+d' % (n_above - k0) if abs(n_above - k0) <= 2 else 'k=other')
+            tags.add('count_just_above_98pc')
+            if n_below:
+                tags.add('count_just_below_98pc')
+    gains = None
+    if file_order and suffix.endswith('ap') and rng.random() < 0.5:
+        gains = [int(g) for g in rng.choice(NP1_GAINS, 384)]     # a per-channel SpikeGLX setting (known finding range_volts_file_order: only probes read in file order)
+    case = {'kind': 'fullscale', 'fixture': fx, 'mi_edit': edit, 'mi': mi, 'raw': raw, 'proportion': p, 'gains': gains}
+    desc = {'mode': 'fullscale', 'i': i, 'fixture': name, 'imMaxInt': 'fixture' if edit == 'keep' else edit, 'ns': ns, 'nc': ncv, 'proportion': p,
+            'gains': 'per-channel' if gains else 'fixture'}
+    return case, desc, ['mode=fullscale', 'probe=' + (version or 'nidq'), 'imMaxInt=' + ('fixture' if edit == 'keep' else 'absent' if edit == 'delete' else 'set'),
+                        'gains=' + ('per-channel' if gains else 'fixture')] + sorted(tags)
+
+
+def _run_fullscale(case):
+    """the production composition on a real Reader: saturation(sr[:, :ncv].T, max_voltage=sr.range_volts[:ncv], fs=sr.fs) with the
+    slew criterion switched off.  ('ok', maxint, flags) or ('err raises',)"""
+    import shutil
+    import tempfile
+    import logging
+    import spikeglx
+    tmp = tempfile.mkdtemp()
+    sr = None
+    lvl = logging.getLogger('ibllib').level
+    logging.getLogger('ibllib').setLevel(logging.CRITICAL)
+    try:
+        with warnings.catch_warnings():
+            warnings.simplefilter('ignore')
+            binf = _write_recording(tmp, case)
+            try:
+                sr = spikeglx.Reader(binf)
+                ncv = sr.nc - sr.nsync
+                data = sr[:, :ncv].T
+                mv = sr.range_volts[:ncv]
+                mx = spikeglx._get_max_int_from_meta(sr.meta)
+                kw = {} if case.get('proportion') is None else {'proportion': case['proportion']}
+                sat, _ = _sat()(data, mv, v_per_sec=float('inf'), fs=sr.fs, **kw)
+            except Exception as e:
+                return ('err raises', f'{type(e).__name__}: {str(e)[:80]}')
+        sat = np.asarray(sat)
+        if sat.shape != (case['raw'].shape[0],):
+            return (f'err shape {sat.shape}',)
+        return ('ok', int(mx), sat.astype(bool))
+    finally:
+        logging.getLogger('ibllib').setLevel(lvl)
+        if sr is not None:
+            try:
+                sr.close()
+            except Exception:
+                pass
+        shutil.rmtree(tmp, ignore_errors=True)
+
+
+def _line_fullscale(case):
+    name, suffix, imec, version, _ = FIXTURES[case['fixture']]
+    P = _pfrac(0.2 if case.get('proportion') is None else case['proportion'])
+    raw = case['raw']
+    rows = ';'.join(','.join(map(str, r.tolist())) for r in raw.T)
+    return (f'rawsat {P.numerator} {P.denominator} {1 if imec else 0} {version or "-"} {"-" if case["mi"] is None else case["mi"]} '
+            f'{raw.shape[0]} {raw.shape[1]} {rows}')
+
+
+def _fullscale_cases(ctx):
+    built = [_case_fullscale(ctx, i) for i in range(ctx.n(56, 420))]
+    answers = ctx.lean([_line_fullscale(case) for case, _, _ in built])
+    for (case, desc, tags), ans in zip(built, answers):
+        r = _run_fullscale(case)
+        impl = f'ok maxint={r[1]} flags={_fl(r[2])}' if r[0] == 'ok' else r[0]
+        nf = int(r[2].sum()) if r[0] == 'ok' else -1
+        ctx.compare('fullscale', desc, impl, ans, nontrivial=True,
+                    tags=tuple(tags) + (('raises',) if nf < 0 else ('flags=none' if nf == 0 else 'flags=all' if nf == len(r[2]) else 'flags=some',)))
+
+
+VERSION_KEYS = [({'typeEnabled': 'imec'}, '3A'), ({'imDatPrb_type': 0.0, 'imDatPrb_port': 1.0, 'imDatPrb_slot': 2.0}, '3B2'), ({'imDatPrb_type': 0.0}, '3B1'),
+                ({'imDatPrb_type': 21.0}, 'NP2.1'), ({'imDatPrb_type': 1030.0}, 'NP2.1'), ({'imDatPrb_type': 24.0}, 'NP2.4'),
+                ({'imDatPrb_type': 2013.0}, 'NP2.4'), ({'imDatPrb_type': 1100.0}, 'NPultra'), ({'imDatPrb_type': 9999.0}, None)]
+
+
+def _maxint_table(ctx):
+    """_get_max_int_from_meta on meta dictionaries of every probe family x imMaxInt absent / present x the optional explicit
+    version argument (positional / keyword, also one that contradicts the dictionary) against Saturation.fullScaleInt"""
+    import spikeglx
+    rows = []
+    for keys, version in VERSION_KEYS:
+        for mi in (None, 512.0, 8192.0, 2048, 511.0, 32768.0):
+            md = dict(keys, typeThis='imec')
+            if mi is not None:
+                md['imMaxInt'] = mi
+            rows.append((md, 1, version, mi, None))
+            for given in ('3B2', 'NP2.4', 'NPultra', 'NP2.1', '3A'):
+                rows.append((md, 1, given, mi, given))
+    for tt in ('nidq', 'obx', None):
+        for mi in (None, 32768.0, 512.0, 8192):
+            md = {} if tt is None else {'typeThis': tt}
+            if mi is not None:
+                md['imMaxInt'] = mi
+            rows.append((md, 0, None, mi, None))
+            rows.append((md, 0, None, mi, 'NP2.4'))
+    lines = [f'maxint {imec} {version or "-"} {"-" if mi is None else int(mi)}' for _, imec, version, mi, _ in rows]
+    for j, ((md, imec, version, mi, given), ans) in enumerate(zip(rows, ctx.lean(lines))):
+        try:
+            b = spikeglx.Bunch(md)
+            if given is None:
+                r = spikeglx._get_max_int_from_meta(b)
+            elif j % 2:
+                r = spikeglx._get_max_int_from_meta(b, given)
+            else:
+                r = spikeglx._get_max_int_from_meta(b, neuropixel_version=given)
+            impl = f'ok {int(r)}'
+        except Exception:
+            impl = 'err raises'
+        ctx.compare('maxint', {'op': 'maxint', 'meta': {k: (v if isinstance(v, str) else float(v)) for k, v in md.items()}, 'version_argument': given},
+                    impl, ans, nontrivial=True, tags=('maxint_table', 'imMaxInt=' + ('absent' if mi is None else 'present'),
+                                                      'version=' + ('explicit' if given else 'from_meta')))
+
+
+# ---------------------------------------------------------------------------------------------
+# the production path: decompress_destripe_cbin saves the batch-wise flags (one worker, or workers run in order)
+# ---------------------------------------------------------------------------------------------
+class _SeqParallel:
+    """stand-in for joblib.Parallel: every task once, sequentially, in the order given"""
+    order = None
+
+    def __init__(self, n_jobs=None, **kw):
+        pass
+
+    def __call__(self, tasks):
+        tasks = list(tasks)
+        for k in (type(self).order or range(len(tasks))):
+            func, args, kwargs = tasks[k]
+            func(*args, **kwargs)
+        return [None] * len(tasks)
+
+
+PIPE_STEP, PIPE_AMP = 300, 505          # counts: a step far above the slew limit (128 counts at gain 500), a level above 0.98 * 512
+
+
+def _pipeline_input(ctx, i):
+    """(ns, nbatch, nprocesses, order, events): a 3B recording that is flat except for common steps of 300 counts placed on the last
+    sample of batches (and at random) and single samples at 505 counts"""
+    rng = ctx.subrng(14, i)
+    T = int(ctx.consts.get('DESTRIPE_TAPER', 1024))
+    P = 1 if i % 2 == 0 else 2
+    N = 2 * T + (1024 if i < 2 else int(rng.choice([2048, 1024, 3072])))      # the two quick cases use the shortest batches
+    ns = N + int(rng.integers(N // 3 + 300, N // 2 + 400)) if P == 1 else 2 * N + int(rng.integers(300, 700))
+    S = N - 2 * T
+    ends = [k * S + N - 1 for k in range(ns // S + 1) if k * S + N - 1 < ns - 2]
+    steps = sorted(set(ends + [int(x) for x in rng.integers(10, ns - 10, size=2)]))
+    amps = sorted(set(int(x) for x in rng.integers(10, ns - 10, size=2)) - set(steps) - set(t + 1 for t in steps))
+    return {'kind': 'pipeline', 'ns': ns, 'nbatch': N, 'nprocesses': P, 'order': list(range(P)), 'steps_between_t_and_t+1': steps, 'amplitude_samples': amps}
+
+
+def _pipeline_raw(inp):
+    raw = np.zeros((inp['ns'], 384), np.int16)
+    level = 0
+    for t in inp['steps_between_t_and_t+1']:
+        level = PIPE_STEP - level
+        raw[t + 1:, :] = level
+    for t in inp['amplitude_samples']:
+        raw[t, :] = PIPE_AMP
+    return raw
+
+
+def _run_pipeline(inp):
+    """the real decompress_destripe_cbin on the recording; ('ok', saved flag vector, channel-0 volts, its range, fs, whole-recording flags of
+    the real saturation) or ('skipped', why) when the pipeline itself does not run (not a matter of C16)"""
+    import shutil
+    import tempfile
+    import logging
+    from pathlib import Path
+    tmp = Path(tempfile.mkdtemp())
+    lvl = logging.getLogger('ibllib').level
+    logging.getLogger('ibllib').setLevel(logging.CRITICAL)
+    try:
+        import spikeglx
+        from ibldsp import voltage
+        raw = _pipeline_raw(inp)
+        binf = _write_recording(tmp, {'fixture': 0, 'mi_edit': 'keep', 'raw': raw, 'gains': None})
+        with warnings.catch_warnings():
+            warnings.simplefilter('ignore')
+            sr = spikeglx.Reader(binf)
+            x = sr[:, :384].T
+            rv = sr.range_volts[:384]
+            fs = sr.fs
+            whole = voltage.saturation(x, max_voltage=rv, fs=fs)[0]
+            sr.close()
+            keep = voltage.Parallel
+            voltage.Parallel = _SeqParallel
+            _SeqParallel.order = list(inp['order'])
+            try:
+                voltage.decompress_destripe_cbin(binf, tmp / 'out.bin', nbatch=int(inp['nbatch']), nprocesses=int(inp['nprocesses']))
+            finally:
+                voltage.Parallel = keep
+                _SeqParallel.order = None
+        f = tmp / '_iblqc_ephysSaturation.samples.npy'
+        if not f.exists():
+            return ('skipped', 'no _iblqc_ephysSaturation.samples.npy was saved')
+        saved = np.load(f)
+        if saved.shape != (inp['ns'],):
+            return ('skipped', f'saved vector of shape {saved.shape}')
+        return ('ok', saved.astype(bool), x[0].copy(), rv[:1].copy(), float(fs), np.asarray(whole).astype(bool))
+    except Exception as e:
+        return ('skipped', f'{type(e).__name__}: {str(e)[:120]}')
+    finally:
+        logging.getLogger('ibllib').setLevel(lvl)
+        shutil.rmtree(tmp, ignore_errors=True)
+
+
+def _pipeline_rule(inp):
+    """the property on the raw counts of the recording (every channel carries the same counts): flagged iff |raw| > 0.98 * 512 or the
+    step into the next sample is at least 129 counts (limit 1e-8 V/s * 30000 Hz = 128.0 counts at 2.34 uV per count; the steps used are 300)"""
+    r = _pipeline_raw(inp)[:, 0].astype(np.int64)
+    flag = 50 * np.abs(r) > 49 * 512
+    flag[:-1] |= np.abs(np.diff(r)) >= 129
+    return flag
+
+
+def oracle_pipeline(inp):
+    res = _run_pipeline(inp)
+    if res[0] != 'ok':
+        return None
+    want = _pipeline_rule(inp)
+    d = np.where(res[1] != want)[0]
+    if d.size:
+        t = int(d[0])
+        return (f'sample {t} is {"" if res[1][t] else "not "}flagged in the saved _iblqc_ephysSaturation.samples.npy; the rule on the recording says '
+                f'{"flagged" if want[t] else "not flagged"} ({d.size} samples differ: {d[:6].tolist()}); saturation() on the whole recording: '
+                f'{"flagged" if res[5][t] else "not flagged"}')
+    return None
+
+
+def _pipeline_cases(ctx):
+    dflt = _defaults()
+    T = int(ctx.consts.get('DESTRIPE_TAPER', 1024))
+    for i in ([int(ctx.seed) % 2] if ctx.quick else range(8)):      # quick: one run, one worker or two by the seed
+        inp = _pipeline_input(ctx, i)
+        res = _run_pipeline(inp)
+        desc = {'mode': 'pipeline', 'i': i, 'ns': inp['ns'], 'nbatch': inp['nbatch'], 'nprocesses': inp['nprocesses']}
+        if res[0] != 'ok':
+            ctx.note(f'pipeline case {i} not run: {res[1]}')
+            ctx.case(desc, nontrivial=False, tags=('pipeline:skipped',))
+            continue
+        saved, x0, rv0, fs, whole = res[1:]
+        case = {'data': x0[None, :], 'max_voltage': rv0, 'v_per_sec': None, 'fs': fs, 'proportion': None, 'mute_window_samples': None}
+        token = f'workers:{inp["nbatch"]}:{T}:{inp["nprocesses"]}:' + '.'.join(map(str, inp['order']))
+        parsed = _parse_batch_answer(ctx.lean([_line_batch(case, dflt, token)])[0])
+        if parsed is None or not parsed[1]:
+            ctx.note(f'pipeline case {i}: model answer unusable / not a chain')
+            continue
+        # INFORMATIONAL (what decompress_destripe_cbin stores is outside C16: nothing here can raise an alarm).  batched_eq_whole +
+        # Tie.C16.saturation_calls_eq predict: workers run in order => saved vector = Saturation.batched = one call on the whole recording
+        a1, a2 = np.array_equal(saved, parsed[0]), np.array_equal(saved, whole)
+        ctx.case(desc, nontrivial=bool(saved.any()), tags=('pipeline(informational)', 'workers=%d' % inp['nprocesses'],
+                                                           'pipeline:saved=model' if a1 else 'pipeline:saved!=model',
+                                                           'pipeline:saved=whole_recording' if a2 else 'pipeline:saved!=whole_recording'))
+        if not (a1 and a2):
+            ctx.note(f'pipeline case {i} (informational, outside C16): saved flags {np.where(saved)[0].tolist()[:12]}, Saturation.batched '
+                     f'{np.where(parsed[0])[0].tolist()[:12]}, whole recording {np.where(whole)[0].tolist()[:12]}')
 
 
 # ---------------------------------------------------------------------------------------------
@@ -1041,6 +1705,114 @@ def _safe_oracle(case, info=None):
         return oracle(case, info)
     except Exception as e:  # the oracle itself must not hide a crash of the real code
         return f'raised {type(e).__name__}: {e}'
+
+
+def oracle_fullscale(case):
+    """None when the flags of saturation(sr[:, :ncv].T, sr.range_volts[:ncv]) on a real Reader follow the property read in raw ADC
+    counts: flagged iff more than the proportion of the channels have |raw| > 0.98 x full scale, the full scale being what the
+    SpikeGLX convention says for the probe (independent of the code).  Exact integers; a sample that holds an exact tie is skipped."""
+    name, suffix, imec, version, file_order = FIXTURES[case['fixture']]
+    M = _conventional_full_scale(imec, version, case['mi'])
+    if M is None or (case.get('gains') is not None and not file_order):
+        return None                                    # no conventional full scale / range vector not lined up with the data (caller matter, see observations())
+    r = _run_fullscale(case)
+    if r[0] != 'ok':
+        return 'the call failed: ' + str(r[-1])
+    raw = np.abs(case['raw'].astype(np.int64))
+    ncv = raw.shape[1]
+    p = 0.2 if case.get('proportion') is None else case['proportion']
+    P = _pfrac(p)
+    for t in range(raw.shape[0]):
+        if np.any(50 * raw[t] == 49 * M):
+            continue
+        k = int((50 * raw[t] > 49 * M).sum())
+        want = Fraction(k, ncv) > P
+        if bool(r[2][t]) != want:
+            return (f'sample {t}: {k} of {ncv} channels exceed 98 % of the full scale of {M} counts ({"more" if want else "not more"} than the '
+                    f'proportion {p}) but the sample is {"" if r[2][t] else "not "}flagged (max_voltage = Reader.range_volts, code full scale {r[1]})')
+    return None
+
+
+def _safe(fn, *a):
+    try:
+        return fn(*a)
+    except Exception as e:
+        return f'raised {type(e).__name__}: {e}'
+
+
+def _tiny_fullscale():
+    out = []
+    for fx, (name, suffix, imec, version, _) in enumerate(FIXTURES):
+        ncv = 1 if suffix == 'nidq' else 384
+        for edit in ('keep', 'delete', 512, 8192, 32768):
+            own = _fixture_maxint(name)
+            mi = own if edit == 'keep' else None if edit == 'delete' else int(edit)
+            M = _conventional_full_scale(imec, version, mi)
+            if M is None:
+                continue
+            thr = Fraction(49 * M, 50)
+            for val in (min(int(math.floor(thr)) + 1, 32767), int(math.ceil(thr)) - 1):
+                raw = np.zeros((2, ncv), np.int16)
+                raw[1, :] = -val
+                out.append({'kind': 'fullscale', 'fixture': fx, 'mi_edit': edit, 'mi': mi, 'raw': raw, 'proportion': None, 'gains': None})
+    return out
+
+
+def _export_fullscale(case):
+    name = FIXTURES[case['fixture']][0]
+    return {'kind': 'fullscale', 'meta_fixture': 'src/tests/fixtures/' + name, 'imMaxInt_line': case['mi_edit'] if case['mi_edit'] in ('keep', 'delete') else int(case['mi_edit']),
+            'imMaxInt_value': case['mi'], 'raw_counts[ns][nc]': case['raw'].tolist(), 'proportion': case.get('proportion'),
+            'ap_gains': case.get('gains'), 'fixture': int(case['fixture'])}
+
+
+def _import_fullscale(inp):
+    return {'kind': 'fullscale', 'fixture': int(inp['fixture']), 'mi_edit': inp['imMaxInt_line'], 'mi': inp['imMaxInt_value'],
+            'raw': np.array(inp['raw_counts[ns][nc]'], dtype=np.int16), 'proportion': inp.get('proportion'), 'gains': inp.get('ap_gains')}
+
+
+def _shrink_fullscale(case, why):
+    best, bwhy = case, why
+    changed = True
+    while changed:
+        changed = False
+        raw = best['raw']
+        cands = [dict(best, raw=raw[a:b].copy()) for a, b in ((0, raw.shape[0] // 2), (raw.shape[0] // 2, raw.shape[0]), (1, raw.shape[0]), (0, raw.shape[0] - 1))
+                 if 0 <= a < b <= raw.shape[0] and b - a < raw.shape[0]]
+        if best.get('gains') is not None:
+            cands.append(dict(best, gains=None))
+        for c in cands:
+            r = _safe(oracle_fullscale, c)
+            if r:
+                best, bwhy, changed = c, r, True
+                break
+    return best, bwhy
+
+
+def _report_fullscale(case, why):
+    return {'input': _export_fullscale(case), 'observed': why,
+            'expected': 'C16: a sample is flagged exactly when more than `proportion` of the channels exceed 98 % of their full-scale voltage; with '
+                        'max_voltage = Reader.range_volts that is |raw| > 0.98 x (imMaxInt, or 512 for 1.0 probes / 32768 for NI streams without it)',
+            'how': 'harness/props/c16.py oracle_fullscale(_import_fullscale(input)): the fixture meta with fileSizeBytes / fileTimeSecs / rate adjusted and '
+                   'the imMaxInt line kept / deleted / replaced, raw counts written as int16; sr = spikeglx.Reader(bin); '
+                   'saturation(sr[:, :ncv].T, sr.range_volts[:ncv], v_per_sec=inf, fs=sr.fs)'}
+
+
+def oracle_maxint(inp):
+    """_get_max_int_from_meta on a meta dictionary against the SpikeGLX convention"""
+    import spikeglx
+    md, given = dict(inp['meta']), inp.get('version_argument')
+    imec = md.get('typeThis') == 'imec'
+    version = given
+    if imec and version is None:
+        version = next((v for keys, v in VERSION_KEYS if all(md.get(k) == x for k, x in keys.items()) and len(keys) == sum(k in md for k in ('typeEnabled', 'imDatPrb_type', 'imDatPrb_port', 'imDatPrb_slot'))), None)
+    M = _conventional_full_scale(imec, version, md.get('imMaxInt'))
+    if M is None:
+        return None
+    try:
+        r = spikeglx._get_max_int_from_meta(spikeglx.Bunch(md)) if given is None else spikeglx._get_max_int_from_meta(spikeglx.Bunch(md), given)
+    except Exception as e:
+        return f'_get_max_int_from_meta raised {type(e).__name__}: {e} (full scale by convention: {M})'
+    return None if int(r) == M else f'_get_max_int_from_meta returned {r}, the full scale of this stream is {M} counts'
 
 
 def _tiny_cases():
@@ -1234,6 +2006,34 @@ def search(ctx, reasons):
             f = _follow_up(case)
             if f:
                 return _report(*_shrink(*f))
+    for case in _tiny_fullscale():
+        r = _safe(oracle_fullscale, case)
+        if r:
+            return _report_fullscale(*_shrink_fullscale(case, r))
+    for m in ctx.mismatches[:40]:
+        c = m['case']
+        if c.get('mode') == 'fullscale':
+            case = _case_fullscale(ctx, c['i'])[0]
+            r = _safe(oracle_fullscale, case)
+            if r:
+                return _report_fullscale(*_shrink_fullscale(case, r))
+        elif c.get('op') == 'maxint':
+            inp = {'kind': 'maxint', 'meta': c['meta'], 'version_argument': c.get('version_argument')}
+            r = _safe(oracle_maxint, inp)
+            if r:
+                return {'input': inp, 'observed': r, 'expected': 'full scale = imMaxInt when the meta has it, else 512 (1.0 imec probes) / 32768 (NI)',
+                        'how': 'harness/props/c16.py oracle_maxint(input): spikeglx._get_max_int_from_meta(spikeglx.Bunch(meta)[, version_argument])'}
+        elif c.get('mode') == 'batch':
+            # every batch is an ordinary call of saturation on data[:, a:b]: judge each one by the property
+            case, token, _, _ = _case_batch(ctx, c['i'])
+            ans = ctx.lean([_line_batch(case, _defaults(), token)])[0]
+            parsed = _parse_batch_answer(ans)
+            for a, b in (parsed[2] if parsed else []):
+                for form in ({'layout': 'strided'}, None):
+                    sub = dict(case, data=case['data'][:, a:b].copy(), form=form, calls=1)
+                    r = _safe_oracle(sub)
+                    if r:
+                        return _report(*_shrink(sub, r))
     found = None
     for m in ctx.mismatches[:60]:
         c = m['case']
@@ -1273,6 +2073,14 @@ def search(ctx, reasons):
 
 
 def replay(ctx, rep):
+    if rep['input'].get('kind') == 'fullscale':
+        r = _safe(oracle_fullscale, _import_fullscale(rep['input']))
+        print('oracle:', r)
+        return r is not None
+    if rep['input'].get('kind') == 'maxint':
+        r = _safe(oracle_maxint, rep['input'])
+        print('oracle:', r)
+        return r is not None
     if rep['input'].get('generator', '').endswith('_case_scale(ctx, i)'):
         ctx.seed = int(rep['input'].get('seed', ctx.seed))
         r = _safe_oracle(_case_scale(ctx, int(rep['input']['i'])))
@@ -1300,4 +2108,86 @@ def known_findings(ctx):
         ctx.note(f'int_overflow: int16 sample -32768 with range 32768 flagged={bool(fa[0])} (expected True); int16 step -32768 -> 32767 '
                  f'with limit 2 units/sample flagged={bool(fb[0])} (expected True)')
         return bool(not fa[0] and not fb[0])
+
     return {'even_mute_window': even_mute_window, 'int_overflow': int_overflow}
+
+
+def observations(ctx):
+    """Defects of CALLERS of saturation() observed while modelling.  They are outside C16 (the property is about the values saturation()
+    returns for the arguments it is given; which range vector a caller passes, and in which order callers store the flags of several
+    calls, is not part of it), so they are NOT known findings and are not run by ./check: call observations(ctx)[key]() by hand
+    (True = still reproduces; details go to ctx.notes).  The Lean statements next to them are fullscale_misaligned_counterexample and
+    batched_seam_counterexample."""
+
+    def range_volts_file_order():
+        # Reader.range_volts (and sample2volts) are in FILE channel order, the columns of sr[...] in geometry-sorted order: on a probe
+        # whose sorted order is not the file order and whose channels have different AP gains, the production composition
+        # saturation(sr[:, :ncv].T, sr.range_volts[:ncv]) compares a channel with the full scale of another channel
+        fx = [k for k, f in enumerate(FIXTURES) if f[3] == 'NPultra'][0]
+        raw = np.zeros((3, 384), np.int16)
+        raw[1, :] = 400                                           # 78 % of the 512-count full scale on every channel
+        case = {'kind': 'fullscale', 'fixture': fx, 'mi_edit': 'keep', 'mi': 512, 'raw': raw, 'proportion': None,
+                'gains': [50 if c % 2 == 0 else 3000 for c in range(384)]}
+        r = _run_fullscale(case)
+        ctx.note(f'range_volts_file_order: NPultra meta with AP gains alternating 50 / 3000, every channel at 400 of 512 counts at sample 1: '
+                 f'flags={r[2].astype(int).tolist() if r[0] == "ok" else r} (expected no flag)')
+        return bool(r[0] == 'ok' and r[2][1])
+
+    def saved_flags_worker_order():
+        # decompress_destripe_cbin with 2 workers: worker 0's last batch ends at sample e; a slew-only event between e - 1 and e is
+        # flagged by a call on the whole recording and by worker 1's first batch, but worker 0's batch (whose last sample has no next
+        # sample) overwrites it when it is written later - the order in which the parallel workers normally finish
+        return _demo_worker_order(ctx)
+    return {'range_volts_file_order': range_volts_file_order, 'saved_flags_worker_order': saved_flags_worker_order}
+
+
+def _demo_worker_order(ctx, N=4096, ns=8692):
+    """runs the real decompress_destripe_cbin (2 workers, sequential stand-in for joblib) on a 3B recording that is flat except for
+    one common step at the seam; returns True when the saved flag vector depends on the order in which the workers are run and
+    differs from the flags of one call on the whole recording"""
+    import shutil
+    import tempfile
+    import logging
+    from pathlib import Path
+    tmp = Path(tempfile.mkdtemp())
+    lvl = logging.getLogger('ibllib').level
+    logging.getLogger('ibllib').setLevel(logging.CRITICAL)
+    try:
+        import spikeglx
+        from ibldsp import voltage
+        T = int(ctx.consts.get('DESTRIPE_TAPER', 1024))
+        ans = ctx.lean([f'windows {ns} workers:{N}:{T}:2:0', f'windows {ns} workers:{N}:{T}:2:1'])
+        w0 = [tuple(int(y) for y in x.split(':')) for x in ans[0].split('wins=')[1].split(',')]
+        seam = w0[-1][1] - 1
+        raw = np.zeros((ns, 384), np.int16)
+        raw[seam + 1:, :] = 300                                   # a step of 300 counts on every channel; |x| stays below 0.98 * 512
+        case = {'kind': 'fullscale', 'fixture': 0, 'mi_edit': 'keep', 'mi': None, 'raw': raw, 'proportion': None, 'gains': None}
+        binf = _write_recording(tmp, case)
+        sr = spikeglx.Reader(binf)
+        whole, _ = voltage.saturation(sr[:, :384].T, max_voltage=sr.range_volts[:384], fs=sr.fs)
+        sr.close()
+        saved = {}
+        keep = voltage.Parallel
+        voltage.Parallel = _SeqParallel
+        try:
+            for order in ((0, 1), (1, 0)):
+                d = tmp / f'out{order[0]}'
+                d.mkdir()
+                _SeqParallel.order = order
+                with warnings.catch_warnings():
+                    warnings.simplefilter('ignore')
+                    voltage.decompress_destripe_cbin(binf, d / 'out.bin', nbatch=N, nprocesses=2)
+                saved[order] = np.load(d / '_iblqc_ephysSaturation.samples.npy')
+        finally:
+            voltage.Parallel = keep
+            _SeqParallel.order = None
+        ctx.note(f'saved_flags_worker_order: ns={ns}, nbatch={N}, 2 workers, step on all channels between samples {seam} and {seam + 1}: one call on the '
+                 f'recording flags {np.where(whole)[0].tolist()}; saved vector, workers run 0 then 1: {np.where(saved[(0, 1)])[0].tolist()}; run 1 then 0 '
+                 f'(worker 0 finishes last, as in a parallel run): {np.where(saved[(1, 0)])[0].tolist()}')
+        return bool(whole[seam] and saved[(0, 1)][seam] and not saved[(1, 0)][seam])
+    except Exception as e:
+        ctx.note(f'saved_flags_worker_order: demonstration could not run ({type(e).__name__}: {e})')
+        return False
+    finally:
+        logging.getLogger('ibllib').setLevel(lvl)
+        shutil.rmtree(tmp, ignore_errors=True)
